@@ -48,9 +48,13 @@ def native_replay(native, res, seed):
     patterns = [[0] * n, [(n - i) * 15 for i in range(n)], [(i % 2) * 25 for i in range(n)], [(i == 0) * 60 for i in range(n)]]
     for _ in range(6):
         patterns.append([rng.choice([0, 5, 20, 50]) for _ in range(n)])
+    # very different processing speeds (seconds) - only tried when nothing failed so far
+    patterns.append([6500] + [0] * max(0, n - 1))
     failed = set()
     for d in patterns:
-        k, v = native_ok(native.call('pipe_run', n=n, w=W, delays_ms=d, consume=-1, then='drain', _timeout=8.0))
+        if failed and max(d + [0]) > 1000:
+            break
+        k, v = native_ok(native.call('pipe_run', n=n, w=W, delays_ms=d, consume=-1, then='drain', _timeout=20.0))
         if k == 'timeout':
             failed.add('the iteration ends after the last item (no deadlock / livelock)')
             continue
